@@ -100,6 +100,7 @@ Verdict run_case(Choices& c, CaseLog& log)
     opt.max_events = 4;  // event 0 = target, 1.. = prefix material
     Problem ref;
     // reference: fresh state, TrackOrder::none, no timing, no checker
+    bool many_slots = false;
     TrackOrder variant_order = TrackOrder::none;
     Verdict v = setup_problem(c, log, opt, ref, {}, {}, [&](SimSpec& s) {
         // keep the drawn order for the variant; exclude init_charge (a layout
@@ -109,7 +110,17 @@ Verdict run_case(Choices& c, CaseLog& log)
             variant_order = TrackOrder::reindex_shuffle;
         s.track_order = TrackOrder::none;
         s.max_events = 8;
+        // many-slots class (see c07_streams.cc): slot counts 129..982,
+        // derived from the existing draws
+        if (s.track_slots >= 48)
+        {
+            s.track_slots = 129 + (s.track_slots - 48) * 53
+                            + int(s.rng_seed % 5);
+            many_slots = true;
+        }
     });
+    if (many_slots)
+        log.label("many-slots(>=128)");
     if (v != Verdict::pass)
         return v;
     unsigned long target_id = (unsigned long)(c.log_u64() >> 24);
